@@ -4,7 +4,7 @@
    implementation does not do it (known finding) -- and the completeness over all expressions of a module is the correspondence
    and the oracle of harness/c18.py. *)
 From Coq Require Import ZArith List Bool Arith.
-From GR Require Import Base.Result Sym.Delete Sym.Retarget Sym.RetargetProofs.
+From GR Require Import Base.Result Sym.Delete Sym.Retarget Sym.RetargetProofs Sym.AbiRules Sym.AbiRulesProofs.
 Import ListNotations.
 Open Scope Z_scope.
 
@@ -45,6 +45,40 @@ Theorem C18_only_branch_and_call_edges_into_the_old_referent_move :
     forall e, In e edges' ->
       In e edges \/ (exists y, (y = ET_BRANCH \/ y = ET_CALL) /\ In (blk, oldref, y) edges /\ e = (blk, newref, y)).
 Proof. exact retarget_out_edges_spec. Qed.
+
+(* ===== the ABI's internal/external tables (Sym/AbiRules.v: abi_rules, compared with ABI._sym_expr_rules on every module) ===== *)
+(* no operand is ever matched by two rules of a table *)
+Theorem C18_abi_tables_pick_at_most_one_rule : forall isa fmt pie access attrs d,
+  (length (matching_rules (abi_rules isa fmt pie) access attrs d) <= 1)%nat.
+Proof. exact abi_rules_unambiguous. Qed.
+
+Theorem C18_no_multiple_rules_error : forall syms isa fmt pie old new e access,
+  retarget_expr syms (abi_rules isa fmt pie) old new e access <> Err ValueErr.
+Proof. exact retarget_expr_with_abi_rules_is_never_ambiguous. Qed.
+
+(* converting back (old and new swapped) picks the same rule and restores the attribute set *)
+Theorem C18_conversion_round_trip : forall isa fmt pie access attrs d r,
+  matching_rules (abi_rules isa fmt pie) access attrs d = [r] ->
+  matching_rules (abi_rules isa fmt pie) access (if negb d then ru_int r else ru_ext r) (negb d) = [r] /\
+  same_set (if d then ru_int r else ru_ext r) attrs = true.
+Proof. exact abi_rules_round_trip. Qed.
+
+(* ===== the request layer (RewritingContext.retarget_symbol_uses) ===== *)
+Theorem C18_request_accepted_iff : forall info st old new,
+  (exists st', request_retarget info st old new = Ok st') <->
+  (q_in_module (info old) = true /\ q_in_module (info new) = true /\ ~ In old (map fst st) /\ q_has_referent (info new) = true).
+Proof. exact request_accepted_iff. Qed.
+
+(* after any sequence of requests the recorded map has one entry per old symbol, names symbols of the module only, and every new
+   symbol has a referent; every request was answered *)
+Theorem C18_recorded_requests_are_valid : forall info rs,
+  recorded_ok info (fst (requests info rs)) /\ length (snd (requests info rs)) = length rs.
+Proof. exact requests_recorded_ok. Qed.
+
+Example C18_requests_example :
+  let info := fun s => match s with 0%nat | 1%nat => mk_reqsym true true | 2%nat => mk_reqsym true false | _ => mk_reqsym false true end in
+  requests info [(0, 1); (0, 1); (1, 2); (1, 5); (5, 1); (1, 0)]%nat = ([(0, 1); (1, 0)]%nat, [true; false; false; false; false; true]).
+Proof. vm_compute. reflexivity. Qed.
 
 Example C18_nonvacuous :
   exists s', retarget_symbol_uses [(0%nat, mk_sinfo (Some 5%nat) true true); (1%nat, mk_sinfo (Some 6%nat) true true)] [] [(0%nat, 1%nat)]
